@@ -53,6 +53,12 @@ fn exercise(tr: &mut Tracer, p: &Value, iface: &mut Box<dyn GenericSecurityServi
                 _ => {}
             }
             if tam != "none" {
+                // alterations whose byte differences cancel under a wrongly accumulating comparison: the same bit in two
+                // checksum bytes, two checksum bytes swapped, the same bit in a checksum byte and the sequence number
+                for i in 4..12 { for j in (i + 1)..12 { for b in [0u8, 7].iter() { let mut t = token.clone(); t[i] ^= 1 << b; t[j] ^= 1 << b; variants.push(t); } } }
+                for i in 4..11 { let mut t = token.clone(); t.swap(i, i + 1); if t != token { variants.push(t); } }
+                for i in 4..12 { let mut t = token.clone(); t[i] ^= 1; t[12] ^= 1; variants.push(t); }
+                if token.len() > 18 { for i in 4..12 { let mut t = token.clone(); t[i] ^= 0x10; t[16] ^= 0x10; variants.push(t); } }
                 for cut in 0..token.len().min(40) { variants.push(token[..cut].to_vec()); }
                 if token.len() > 40 { variants.push(token[..token.len() - 1].to_vec()); }
                 for ext in [1usize, 2, 16].iter() { let mut t = token.clone(); t.extend(vec![0x5a; *ext]); variants.push(t); }
@@ -98,6 +104,14 @@ fn run_plan(p: &Value, tr: &mut Tracer) {
     let mode = p.get("mode").and_then(|x| x.as_str()).unwrap_or("password").to_string();
     let mk = || if mode == "hash" { Ntlm::from_hash(domain.clone(), user.clone(), &np::nt_hash(&password)) } else { Ntlm::new(domain.clone(), user.clone(), password.clone()) };
     let mut ntlm = mk();
+    // the same Ntlm object may serve several handshakes (the API takes &mut): with "reuse" a first complete handshake
+    // (another server challenge) is played and thrown away before the one that is validated
+    if p.get("reuse").and_then(|x| x.as_bool()).unwrap_or(false) {
+        let _ = guarded(|| ntlm.create_negotiate_message());
+        let spec0 = np::ChallengeSpec { flags: np::FLAGS_DEFAULT, challenge: [9, 8, 7, 6, 5, 4, 3, 2], target_name: vec![], target_info: { let mut t = np::av_pair(7, &[1, 2, 3, 4, 5, 6, 7, 8]); t.extend(np::av_pair(0, &[])); t } };
+        let _ = guarded(|| ntlm.read_challenge_message(&np::challenge_message(&spec0)));
+        let _ = guarded(|| ntlm.build_security_interface());
+    }
     let neg = match guarded(|| ntlm.create_negotiate_message()) { Outcome::Done(Ok(n)) => n, _ => { tr.event(json!({"ev": "harness_error", "what": "negotiate failed"})); return; } };
     let ti = if let Some(raw) = p.get("ti_raw") { bytes_of(Some(raw)) } else {
         let mut t = Vec::new();
